@@ -745,6 +745,9 @@ func checkC12(c *Check) {
 
 	c.Rule("R13", "dispatching a retry never removes an intact message: loading removes spool files only on the edge where a sibling file does not exist – a descriptor shortage or an I/O error while opening leaves everything in place for the next attempt or restart (C02.R9)", 2)
 	importRules(c, "C02", c02CleanupOnlyWhenGone, map[string]bool{"R9": true}, "R13")
+	c12HookAfterInit(c, "R15")
+	c19NilMapGuard(c, "R16", poolRel)
+	c12GoroutinesCounted(c, "R17")
 
 	c.Rule("R5", "the panic handler of an attempt renames the metadata (quarantine) and never removes spool files", 1)
 	c.Rule("R6", "the synchronous part of the dispatch callback (it runs on the scheduler goroutine) performs no blocking operation", 1)
